@@ -58,6 +58,11 @@ class ListenReactor(proto_helpers.MemoryReactorClock):
         self.bound = port
         return FakePort(self, port, interface)
 
+    def forget(self):
+        """start observing afresh (after a prelude): what is open now must have been closed by the prelude itself"""
+        assert not self.open, "the prelude left a listener open"
+        self.bound = 0
+
 
 class InjectedConfigError(Exception):
     pass
@@ -72,7 +77,10 @@ def configurations():
             # the caller hands over a TorConfig that is still bootstrapping (as an instance / in a fired Deferred)
             "boot_eph", "boot_fs_d",
             # Tor already has an authenticated filesystem service configured (loaded into the TorConfig at bootstrap)
-            "fs_beside_auth", "eph_beside_auth"]
+            "fs_beside_auth", "eph_beside_auth",
+            # earlier on this TorConfig another endpoint with the same caller-held key tried to listen and Tor refused
+            # the service (that listener was closed again): the application tries once more
+            "eph2key_retry"]
 
 
 INVALID = ["eph_stealth", "eph_with_dir", "fs_with_key", "fs_single", "both_auth",
@@ -116,6 +124,17 @@ class Run(object):
         self.public = 80
         self.nlog = len(self.sim.log)
         self.asked = []
+        if cfg == "eph2key_retry":
+            prevreactor = ListenReactor(fail_bind=False)
+            prev = TCPHiddenServiceEndpoint(prevreactor, defer.succeed(self.config), 8081, ephemeral=True, version=2,
+                                            private_key="RSA1024:c29tZWtleQ==")
+            gone = []
+            prev.listen(Factory.forProtocol(Protocol)).addBoth(gone.append)
+            self.sim.pump()
+            self.sim.release(b"512 Bad arguments to ADD_ONION: injected\r\n")
+            assert gone and isinstance(gone[0], failure.Failure), gone
+            assert not prevreactor.open, "the earlier endpoint left its listener open"
+            self.nlog = len(self.sim.log)
 
     def connect_sim(self, proto):
         self.proto = proto
@@ -147,7 +166,7 @@ class Run(object):
             return TCPHiddenServiceEndpoint(r, c, 443, hidden_service_dir=self.tmp, version=3)
         if cfg == "eph_beside_auth":
             return TCPHiddenServiceEndpoint(r, c, 80, ephemeral=True, version=3)
-        if cfg == "eph2key":
+        if cfg in ("eph2key", "eph2key_retry"):
             self.public = 8080
             return TCPHiddenServiceEndpoint(r, c, 8080, ephemeral=True, version=2, private_key="RSA1024:c29tZWtleQ==")
         if cfg == "eph3single":
